@@ -16,7 +16,8 @@ RULE = ("pd-shapes: every (start month/day, end month/day) of seed-rotated year 
         "naive / UTC / fixed-offset / Date operands; pd-subclass: pendulum.DateTime instances passed directly as both / only the second / only the "
         "first operand (region of the repaired finding rs-second-operand-subclass, its witness first); cross-zone pairs (different fixed offsets incl. :30/:45, month-boundary shifts); "
         "pendulum Interval objects (naive, UTC, fixed, Date, differently named zones) with a + (b - a), add(**components), the reversed interval, "
-        "in_months; direct add()/add_duration with random signed components. Each pd case calls the backend helper in both directions and the "
+        "in_months; interval-second-occurrence: Intervals from a UTC / fixed-offset start to an end that is the SECOND occurrence of a repeated wall time in a "
+        "DST zone (6 overlaps x 19 spans x 2 start zones; the region of the repaired finding interval-init-drops-fold, listed for C18); direct add()/add_duration with random signed components. Each pd case calls the backend helper in both directions and the "
         "pure-Python helper as reference. A case is non-trivial when the two operands differ.")
 EXHAUSTIVE = {"quick": False, "thorough": False}
 TRUSTED = ["rustc/pyo3: rust/src/python/helpers.rs::precise_diff is modelled by hand in coq/Model/RustPreciseDiff.v",
@@ -318,7 +319,37 @@ def cases(tier, seed):
             return rnd.choice([0, 0, 1, -1, rnd.randrange(-lim, lim + 1)])
         comps = [c(80), c(30), c(60), c(400), 0, 0, 0, 0] if kind == "date" else [c(80), c(30), c(60), c(400), c(100), c(200), c(5000), c(3 * 10**6)]
         out.append({"stream": "add", "fn": "add", "args": [a, comps]})
+    # ---- Interval objects whose END is the SECOND occurrence of a repeated wall time (end of DST) and whose start is in UTC / a fixed offset:
+    #      differently named zones, so the statement applies (the two instants expressed in UTC).  This is the region of the repaired finding
+    #      interval-init-drops-fold (listed for C18): Interval.__init__ rebuilt the natives it hands to precise_diff without fold=, the end was
+    #      read as the first occurrence and years..seconds were off by the overlap.  The model hands precise_diff the operands with their own
+    #      offsets, which is what the repaired code does.  (Own generator: the other streams of a seed are what they were.)
+    rnd3 = random.Random(seed * 7919 + 6606)
+    for z, f, off in SECOND_OCCURRENCES:
+        try:
+            import zoneinfo
+            chk = _dt.datetime(*f, tzinfo=_dt.timezone.utc).astimezone(zoneinfo.ZoneInfo(z))
+            if chk.fold != 1 or chk.utcoffset() != _dt.timedelta(seconds=off):
+                continue
+        except Exception:  # noqa
+            continue
+        tu = wall_us(["dt"] + f + [0, None])            # the UTC wall of the instant
+        for span in [1, 45, 1800, 3600, 4200, 86399, 86400, 90000, 3 * 86400 + 5, 31 * 86400, 400 * 86400] + [rnd3.randrange(1, 40 * 86400) for _ in range(8)]:
+            for ta in (["putc"], ["pfixed", rnd3.choice(OFFSETS[:14])]):
+                us = rnd3.choice([0, 0, 1, 999999, rnd3.randrange(10**6)])
+                fb = fields_of(tu + off * 10**6 + us)
+                fa = fields_of(tu - span * 10**6 + tz_offset(ta) * 10**6 + rnd3.choice([0, 0, rnd3.randrange(10**6)]))
+                a = _mk("dt", fa[:3], fa[3:], ta)
+                b = _mk("dt", fb[:3], fb[3:], ["pzone", z, 1, off])
+                out.append({"stream": "interval-second-occurrence", "fn": "iv", "args": [a, b]})
     return out
+
+
+# UTC instants (zone, UTC fields, offset in force) inside the SECOND occurrence of a repeated wall time; pendulum.datetime(..., tz=zone) builds the
+# local fields with its default fold=1, i.e. as this second occurrence
+SECOND_OCCURRENCES = [("Europe/Paris", [2012, 10, 28, 1, 20, 0], 3600), ("Europe/Paris", [1996, 10, 27, 1, 0, 0], 3600), ("America/New_York", [2021, 11, 7, 6, 10, 0], -18000),
+                      ("America/St_Johns", [1996, 10, 27, 2, 55, 0], -12600), ("Australia/Lord_Howe", [2021, 4, 3, 15, 5, 0], 37800),
+                      ("Pacific/Chatham", [2012, 3, 31, 14, 30, 0], 45900)]
 
 
 def search_cases(seed):
@@ -721,6 +752,11 @@ def known(c, backend, r):
         return "rs-equal-instants-total-days"
     if fn in ("pd", "iv") and backend == "rs" and tag in ("rs-eq-py", "ranges", "rebuild", "rebuild-impl", "negation") and _rs_shift_irregular(c):
         return "rs-cross-zone-shift"
+    # (repaired, listed for C18) Interval.__init__ rebuilt its natives without fold=: an endpoint that is the second occurrence of a repeated wall
+    # time was decomposed with the offset of the first.  Status `fixed`: a reproduction is reported as a VIOLATION.
+    if fn == "iv" and tag in ("ranges", "rebuild", "rebuild-impl", "negation") and any(
+            op[0] == "dt" and op[8] is not None and op[8][0] == "pzone" and op[8][2] == 1 for op in c["args"]):
+        return "interval-init-drops-fold"
     if fn in ("pd", "iv") and tag in ("rebuild", "rebuild-impl"):
         fa, fb = _python_frame(c)
         if _month_arm_region(fa, fb):
@@ -736,7 +772,9 @@ LEVEL_TEXT = ("Machine-checked Coq theorems about the pure-Python precise_diff (
               "backends on that domain; finding rs-second-operand-subclass is repaired: the Rust model has no exact-type input any more, the "
               "pd_rust_* theorems hold for datetime subclass instances in either position (pd_rust_former_subclass_witness) and direct calls "
               "with pendulum.DateTime operands are an ordinary stream; the remaining Rust-only cross-zone defect is characterised by a "
-              "refuted theorem.")
+              "refuted theorem. Finding interval-init-drops-fold (listed for C18: Interval.__init__ rebuilt the natives it hands to precise_diff without fold=) is "
+              "repaired: the Interval model, which hands precise_diff each operand with its own offset, is now what the code does for either occurrence of a "
+              "repeated wall time, and intervals ending on a second occurrence are an ordinary stream (interval-second-occurrence).")
 DESIGN_REF = "DESIGN.md section 4 C06"
 LEVEL_NOTE = ("Trusted: Coq kernel+VM, the translator, the primitives of Model/PdBase.v as a model of CPython datetime, the hand models of the Rust helper "
               "and of the Interval glue (validated by correspondence every run), extraction+driver (cross-checked with vm_compute).")
